@@ -82,7 +82,7 @@ CATALOGUE = [
     ('encode', 8), ('encode_top', 4), ('dumps', 2), ('format', 3), ('format_triples', 2), ('interpret', 4),
     ('configure', 5), ('configure_top', 2), ('reconfigure', 6), ('reify_edges', 4), ('dereify_edges', 4),
     ('reify_attributes', 4), ('indicate_branches', 3), ('canonicalize_roles', 2), ('queries', 4), ('or', 4), ('sub', 4),
-    ('errors', 3), ('role_algebra', 2), ('node_contexts', 3), ('appears_inverted', 3), ('alignments', 2),
+    ('errors', 3), ('errors_union', 3), ('role_algebra', 2), ('node_contexts', 3), ('appears_inverted', 3), ('alignments', 2),
     ('tree_nodes_walk', 2), ('graph_eq', 1),
     # derive, then mutate the derived object in place
     ('or_then_ior', 3), ('sub_then_isub', 3), ('copy_then_top', 2), ('configure_then_rearrange', 3),
@@ -102,7 +102,8 @@ def plan_world(rng, idx):
         mi = r.weighted([(0, 3), (1, 4), (2, 1), (3, 2)])
         spec = specs[mi]
         ccfg = gcontent.ContentCfg(max_nodes=r.pick([1, 2, 3, 4, 5]), reifiable=r.pick([0.0, 0.3, 0.6]),
-                                   reified_nodes=r.pick([0.0, 0.4]), p_none_target=0.02, avoid_ambiguous=True)
+                                   reified_nodes=r.pick([0.0, 0.4]), p_none_target=0.02, avoid_ambiguous=True,
+                                   var_like_constants=r.pick([0.0, 0.2, 0.4]))
         c = gcontent.gen_content(r, spec, ccfg)
         kind = r.weighted([('decoded', 5), ('handbuilt', 2), ('transformed', 2)])
         item = {'kind': kind, 'model': mi, 'meta': gtext.gen_metadata(r.sub('meta'), p_any=0.5)}
@@ -289,6 +290,9 @@ def run_op(w, op, local):
         return g - w.graphs[y]
     if name == 'errors':
         return model.errors(g)
+    if name == 'errors_union':
+        # graphs of different world items rarely share variables: their union is disconnected
+        return model.errors(g | w.graphs[y])
     if name == 'role_algebra':
         roles = sorted({tr[1] for tr in g.triples})
         return [[r, model.has_role(r), model.is_role_inverted(r), model.invert_role(r), model.canonicalize_role(r),
